@@ -603,6 +603,85 @@ pub fn static_rows(o: &mut Outcome) {
 }
 
 /// The 65 536th value.
+/// The lazy carriers (`VectorIterator<T>`, `ListlikeIterator<T>`, `MapIterator<K, V>`) check their element
+/// types like the eager ones: a column whose element type `T` does not fit is refused by `type_check`
+/// (also nested and through the row layer), a fitting one is accepted. Only clear-cut pairs are asserted.
+pub fn lazy_iterators(o: &mut Outcome) {
+    use scylla_cql_core::deserialize::row::DeserializeRow;
+    use scylla_cql_core::deserialize::value::{DeserializeValue, ListlikeIterator, MapIterator, VectorIterator};
+    let rp = json!({"kind": "lazy_iterators"});
+    // (name of the Rust element type, natives it fits)
+    let elems: [(&str, &[Nat]); 4] = [("i32", &[Nat::Int]), ("f32", &[Nat::Float]), ("i64", &[Nat::BigInt]), ("String", &[Nat::Text, Nat::Ascii])];
+    let natives = [Nat::Int, Nat::Float, Nat::BigInt, Nat::Double, Nat::Text, Nat::Boolean, Nat::Timestamp, Nat::Uuid];
+    macro_rules! ask {
+        ($t:ty, $col:expr) => {
+            (<$t as DeserializeValue<'static, 'static>>::type_check($col).is_ok(), {
+                let spec = ColumnSpec::borrowed("c", $col.clone(), TableSpec::borrowed("ks", "t"));
+                <($t,) as DeserializeRow<'static, 'static>>::type_check(std::slice::from_ref(&spec)).is_ok()
+            })
+        };
+    }
+    for native in natives {
+        let shapes: Vec<(&str, Ty)> = vec![
+            ("vector", Ty::Vector(Box::new(n(native)), 3)),
+            ("list", Ty::list(n(native))),
+            ("set", Ty::set(n(native))),
+            ("list-of-vector", Ty::list(Ty::Vector(Box::new(n(native)), 2))),
+            ("map-to-vector", Ty::map(n(Nat::Int), Ty::Vector(Box::new(n(native)), 2))),
+        ];
+        for (shape, ty) in shapes {
+            let col = column_type(&ty);
+            for (ei, (ename, fits)) in elems.iter().enumerate() {
+                let fit = fits.contains(&native);
+                // (carrier name, value-level verdict, row-level verdict, does the container shape fit the carrier?)
+                let answers: Vec<(&str, (bool, bool), bool)> = match ei {
+                    0 => vec![
+                        ("VectorIterator<i32>", ask!(VectorIterator<'static, 'static, i32>, &col), shape == "vector"),
+                        ("ListlikeIterator<i32>", ask!(ListlikeIterator<'static, 'static, i32>, &col), shape == "list" || shape == "set"),
+                        ("Vec<VectorIterator<i32>>", ask!(Vec<VectorIterator<'static, 'static, i32>>, &col), shape == "list-of-vector"),
+                        ("MapIterator<i32, VectorIterator<i32>>", ask!(MapIterator<'static, 'static, i32, VectorIterator<'static, 'static, i32>>, &col), shape == "map-to-vector"),
+                    ],
+                    1 => vec![
+                        ("VectorIterator<f32>", ask!(VectorIterator<'static, 'static, f32>, &col), shape == "vector"),
+                        ("ListlikeIterator<f32>", ask!(ListlikeIterator<'static, 'static, f32>, &col), shape == "list" || shape == "set"),
+                        ("Vec<VectorIterator<f32>>", ask!(Vec<VectorIterator<'static, 'static, f32>>, &col), shape == "list-of-vector"),
+                        ("MapIterator<i32, VectorIterator<f32>>", ask!(MapIterator<'static, 'static, i32, VectorIterator<'static, 'static, f32>>, &col), shape == "map-to-vector"),
+                    ],
+                    2 => vec![
+                        ("VectorIterator<i64>", ask!(VectorIterator<'static, 'static, i64>, &col), shape == "vector"),
+                        ("ListlikeIterator<i64>", ask!(ListlikeIterator<'static, 'static, i64>, &col), shape == "list" || shape == "set"),
+                        ("Vec<VectorIterator<i64>>", ask!(Vec<VectorIterator<'static, 'static, i64>>, &col), shape == "list-of-vector"),
+                    ],
+                    _ => vec![
+                        ("VectorIterator<String>", ask!(VectorIterator<'static, 'static, String>, &col), shape == "vector"),
+                        ("ListlikeIterator<String>", ask!(ListlikeIterator<'static, 'static, String>, &col), shape == "list" || shape == "set"),
+                    ],
+                };
+                let _ = ename;
+                for (carrier, (value_ok, row_ok), shape_fits) in answers {
+                    o.evals(1);
+                    let want = fit && shape_fits;
+                    if value_ok != row_ok {
+                        o.violation("lazy:value-and-row-type-check-disagree", format!("{carrier} against {}: DeserializeValue::type_check says {value_ok}, the row layer {row_ok}", ty.show()), rp.clone());
+                    }
+                    // clear-cut: element type does not fit at all (shape aside) => must be refused
+                    if !fit && shape_fits && value_ok {
+                        o.violation("lazy:element-type-mismatch-accepted", format!("{carrier} passed the type check against {} although its element type does not fit: the bytes would be reinterpreted", ty.show()), rp.clone());
+                    } else if want && !value_ok {
+                        o.violation("lazy:fitting-column-refused", format!("{carrier} was refused for {}", ty.show()), rp.clone());
+                    } else if want {
+                        o.class("lazy:fitting-column-accepted");
+                    } else if !fit && shape_fits {
+                        o.class("lazy:element-type-mismatch-refused");
+                    } else if !shape_fits && value_ok {
+                        o.class("lazy:other-container-shape-accepted(not-asserted)");
+                    }
+                }
+            }
+        }
+    }
+}
+
 /// A vector column takes exactly `dimensions` elements: every other length is a mismatch - also lengths
 /// that agree with the dimension in their low 16 bits - and leaves the bound values as they were.
 pub fn vector_lengths(o: &mut Outcome) {
